@@ -12,8 +12,8 @@ claims={
  "C09":("One inductive step from an arbitrary valid database state (symbolic owners/data, enumerated shapes): append and remove change the ordered entry collection exactly as specified (PEM stored as DER, errors change nothing, emptied list dropped), membership queries agree with the collection, and the representation invariant and encoded length hold afterwards.","2 C09"),
  "C10":("Descriptor and WIN_CERTIFICATE decoding consumes exactly the declared length, recovers every field, leaves the payload, and both round trips are identities, for every byte string up to the bound (all fields symbolic).","2 C10"),
  "C14":("One harness per variable/key-file decoder entry point on a fully symbolic byte string: on every path no panic, no log.Fatal/os.Exit, no allocation above 8*len+8192, termination within the unwinding bounds; violations are replayed natively (panic / exit status / measured allocation).","2 C14"),
- "C17":("GUID conversions decided for all 2^128 values in one symbolic run (Format, both parse directions, byte forms, in-structure layout, equality).","2 C17"),
- "C18":("Boot-order decoding decided for all 65 536 values of every entry symbolically: names are Boot + four upper-case hex digits.","2 C18"),
+ "C17":("GUID conversions decided for all 2^128 values in one symbolic run (Format, both parse directions, byte forms, in-structure layout, equality); UTF-16 encode/decode round trip, wire layout and terminator check for all strings of up to 3 (4 thorough) symbolic code points.","2 C17"),
+ "C18":("Boot-order decoding decided for all 65 536 values of every entry symbolically: names are Boot + four upper-case hex digits; a load option built by a reference encoder from symbolic fields (one node of every supported kind) decodes to its fields and the hard-drive / file-path text forms are the UEFI ones.","2 C18"),
  "C19":("Read-only operations on a parsed symbolic image, a database and a signed-update value are called twice in both orders: results are equal on every path, and the executor's write log shows no store into the pre-existing object graph (sufficient condition for race-free concurrent use).","2 C19"),
  "C11":("Variable write/read through the object API against a recording file system: the complete operation trace (path with canonical lower-case GUID for all 2^128 GUIDs, flags, single write of attrs||value) and the attribute-checked read are decided for symbolic names, masks and values.","2 C11"),
  "C12":("Inductive step on the real in-memory store (afero.MemMapFs interpreted): after an arbitrary previous value, a plain write of any shorter/equal/longer value is what the next read returns; other variables unchanged.","2 C12"),
@@ -29,8 +29,6 @@ partial={
  "C03":" Re-parse digest equality, embedded-digest and verify-after-sign parts of the statement are not decided by this check.",
  "C01":" The per-position flip statement is covered only through equality with the specification's stream.",
  "C14":" PEM key/certificate readers are not covered (encoding/pem, crypto/x509 not interpreted); the static enumeration of exit call sites is not yet part of this check.",
- "C17":" UTF-16 string conversions are not yet covered by this check.",
- "C18":" Load-option decoding is not yet covered by this check.",
 }
 checks=[]
 for i in ids:
